@@ -218,8 +218,10 @@ impl Module for Node {
             }
             let steps = self.model.task_steps[self.idx];
             if steps > 0 {
-                let (idx, period, silent, mode) = (self.idx, self.model.task_period, self.silent.clone(), self.mode);
-                let task_fault = self.faults.iter().copied().find(|f| f.module == idx && matches!(f.site, Site::Task(_)));
+                let (idx, period, silent, mode, inc) = (self.idx, self.model.task_period, self.silent.clone(), self.mode, self.incarnation);
+                // (only the task of the first incarnation is faulty: after a restart the panic of the old task must still
+                // be reported although the module - and its new task - run on)
+                let task_fault = self.faults.iter().copied().find(|f| f.module == idx && matches!(f.site, Site::Task(_))).filter(|_| self.incarnation == 0);
                 if self.model.service_first.get(idx).copied().unwrap_or(false) {
                     // like an accept loop: registered first, never finishes
                     current().try_join(tokio::spawn(std::future::pending::<()>()));
@@ -240,12 +242,15 @@ impl Module for Node {
                                 }
                             }
                         }
-                        log(idx, Kind::TaskStep(j), 0);
+                        log(idx, Kind::TaskStep(j), u64::from(inc));
                     }
                 });
                 // a task fault is only combined with the non-catching stereotype and a must-join handle;
                 // otherwise the handle is joined if finished (a deactivated module never finishes its task)
-                if task_fault.is_some_and(|f| !f.try_join) {
+                // (a module that restarts registers with try_join: the must-join handle of a task that the restart
+                // cancelled would be reported as an error of its own, which is not a panic)
+                let restarts = self.model.restart_on.get(idx).copied().flatten().is_some();
+                if task_fault.is_some_and(|f| !f.try_join) && !restarts {
                     current().join(h);
                 } else {
                     current().try_join(h);
@@ -456,7 +461,7 @@ pub fn check(case: &Case, a: &Run, b: &Run, reference_followup: &[Entry]) -> Vec
         match fault.site {
             Site::Task(j) => {
                 // the task is gone; the module itself keeps running and must behave as in B
-                if a.log.iter().any(|e| e.module == m && matches!(e.kind, Kind::TaskStep(s) if s >= j)) {
+                if a.log.iter().any(|e| e.module == m && e.a == 0 && matches!(e.kind, Kind::TaskStep(s) if s >= j)) {
                     f.push(("ran-after-fault", format!("the task of m{m} logged step >= {j} after panicking there")));
                 }
                 let la: Vec<&Entry> = a.log.iter().filter(|e| e.module == m).collect();
